@@ -77,6 +77,7 @@ theorem closed_noFn (env : Env) (h : EnvConcrete env) : Closed env NoFn PlainKey
   null := by simp [NoFn]
   str := by intro s; simp [NoFn]
   bool := by intro b; simp [NoFn]
+  leaf := by intro k p; simp [NoFn]
   arr := by intro ys hy; simp only [NoFn]; exact (noFnList_iff ys).2 hy
   obj := by
     intro kvs hm hk
